@@ -61,6 +61,9 @@ package main
 
 //@ func newLassieWrapper
 //@   mode int
+//@   # C08 (part b): success comes with a wrapper (the body ends with `return &lassieWrapper{...}, nil`)
+//@   ensures result1 == nil ==> result0 != nil
+//@   requires cctx != nil
 //@   noframe
 
 // ---- M3: the identity checks of NewEpochFromConfig ----
@@ -84,6 +87,15 @@ package main
 //@   requires config != nil && !(config.Data.Filecoin != nil && config.Data.Filecoin.Enable) ==> config.Data.Car != nil
 //@   noframe
 //@   ensures result1 == nil ==> result0 != nil && config != nil
+//@   # C08 (part b): the epoch handed out is a loaded epoch (validEpoch / validBlocktime: contracts_verif_c08b.go). The cache is
+//@   # the process-wide one made by hugecache.NewWithConfig in cmd-rpc.go before any epoch is loaded.
+//@   requires allCache != nil
+//@   # (validEpoch(result0), spelled out conjunct by conjunct: the one-clause form times out on the 2400-assertion success path)
+//@   ensures result1 == nil ==> allocated(result0) && result0.allCache != nil && result0.config != nil && allocated(result0.config)
+//@   ensures result1 == nil ==> (result0.lassieFetcher == nil ==> carIndexOK(result0))
+//@   ensures result1 == nil ==> (result0.genesis != nil ==> allocated(result0.genesis) && result0.genesis.Config != nil)
+//@   ensures result1 == nil ==> validEpoch(result0)
+//@   ensures result1 == nil ==> validBlocktime(result0)
 //@   ensures result1 == nil ==> result0.epoch == *config.Epoch
 //@   ensures result1 == nil && result0.cidToOffsetAndSizeIndex != nil ==> result0.cidToOffsetAndSizeIndex.Meta() != nil && result0.cidToOffsetAndSizeIndex.Meta().Epoch == *config.Epoch
 //@   ensures result1 == nil ==> result0.slotToCidIndex != nil
